@@ -1151,5 +1151,5 @@ def A22_no_module_state(repo, clause, modules=("mofun.atoms", "mofun.helpers", "
         obs.append(Ob("A22", clause, bad[0][0] if bad else fo, bad[0][1] if bad else m.tree.body[0], not bad,
                       "no function of %s writes module-level state%s" % (mname, "" if not bad else
                                                                          ": %s writes `%s` (results then depend on earlier calls)" % (bad[0][0].qualname, bad[0][2])),
-                      construct="module %s" % mname if not bad else None, slot="module-state:%s" % mname, positive=True))
+                      construct="module %s" % mname if not bad else None, slot="module-state:%s" % mname, positive="robust"))
     return obs
